@@ -56,7 +56,11 @@ let () =
         if f.(16) <> sc then fail id "SPEC" "scan_big_endian" (Printf.sprintf "le=%s be=%s" sc f.(16));
         if f.(17) <> sc then fail id "SPEC" "scan_mixed_endian" (Printf.sprintf "le=%s mixed=%s" sc f.(17))
       end;
-      String.iter (fun c -> if c = 'p' then fail id "SPEC" "scan_panics" (sc ^ " " ^ f.(16) ^ " " ^ f.(17))) (sc ^ f.(16) ^ f.(17));
+      (* ... and whether the driver hands the document over as []byte or as string (field 18: the
+         matrix from string(little-endian document) followed by the one from string(big-endian document)) *)
+      let sstr = if Array.length f > 18 then f.(18) else sc ^ sc in
+      if wf && sstr <> sc ^ sc then fail id "SPEC" "scan_string_source" (Printf.sprintf "bytes=%s string=%s" sc sstr);
+      String.iter (fun c -> if c = 'p' then fail id "SPEC" "scan_panics" (sc ^ " " ^ f.(16) ^ " " ^ f.(17) ^ " " ^ sstr)) (sc ^ f.(16) ^ f.(17) ^ sstr);
       if wf then begin
         Array.iteri (fun i t ->
             let expect = if valid && geom_type g = t then 'o' else 'e' in
